@@ -19,6 +19,12 @@ CHECKS = {
  "C13": dict(cat="model_checking", tech="TLA+ model of the routing tables and ID set (LdapConn.tla, NoLeak at quiescence) + snapshot-bound trace validation",
       text="NoLeak is checked by TLC over every interleaving of two operations incl. timeouts racing the request dequeue, abandons and early finish; the real driver's {used, resultmap, searchmap} snapshot after every turn is compared with the model's and the quiescent end state is read through an accessor.",
       note=CONN_NOTE, ref="6/C13"),
+ "C05": dict(cat="model_checking", tech="TLA+ allocator (MsgId.tla: probing vs. declarative law, exhaustive for a 6-ID space) + LdapConn uniqueness invariants + trace validation of allocator events with the real MaxId, incl. a multi-thread stress run",
+      text="TLC checks UniqueIds/WireUnique/IdRange/Protected over every interleaving of two operations with the counter at 0 and at the wrap point, and the allocator law for every (last, used) of a small cyclic space, each state replayed into the real next_msgid() next to 2^31-1; allocator events of seeded scenarios and of a 16-thread stress run (events ordered under the msgmap lock) must obey the same law with MaxId = 2147483647.",
+      note=CONN_NOTE + " The schedule quantifier over real OS threads is sampled by the stress lane, not exhausted; a full 2^31 wrap with an ID still in flight is out of reach.", ref="6/C05"),
+ "C08": dict(cat="model_checking", tech="TLA+ RFC 4515 recogniser and RFC 4511 filter encoder (Filter4515.tla): TLC classifies every string of bounded alphabets/lengths and renders ASTs with every escaping choice; parse_filter must agree on verdict and bytes; TraceFilter.tla for random/mutated strings",
+      text="All strings over six filter-relevant alphabets up to length 5-7 (3.7 M in quick, 69 M in thorough) are classified by the spec as accept(bytes)/reject/either and compared with parse_filter (verdict, BER bytes, no panic); AST-driven vectors check Parse(Render(a)) = a on the spec and the bytes on the implementation; random and mutated strings are validated in the other direction.",
+      note="Trusts TLC, the RFC 4515/4511 transcription (round-trip laws on the spec, independent DecodeFilter) and the harness projection. Single-number attribute types, raw ill-formed UTF-8 and upper-case :DN: may be accepted or rejected.", ref="6/C08"),
  "C07": dict(cat="model_checking", tech="TLA+ reference model of X.690 (Ber.tla): TLC checks round-trip/minimality laws, prints every state as a vector replayed into lber; lber-produced pairs validated by a trace spec",
       text="TLC exhausts a bounded space of tag trees, boundary lengths and 8-octet integer patterns: the X.690 laws are invariants of the spec, every explored state is replayed into lber (encode, parse with trailing bytes, every alternative definite length form), and random lber input/output pairs are recomputed by TLC. Exhaustive within the pools, sampled beyond.",
       note="Trusts TLC, the Json module, my transcription of X.690 (checked by its own laws) and the JSON<->StructureTag projection of the harness.", ref="6/C07"),
